@@ -7,6 +7,7 @@ renderers below turn it into `.fan` text (for the real front end) or into Python
 with placeholder names (for constraint objects constructed directly).
 
   Search : ["rule",nt] | ["attr",B,A] | ["desc",B,A] | ["item",B,[Slc]] | ["star",B] | ["len",B]
+         | ["sel",B,[[nt,direct,Slc|None]...]]
   Slc    : ["idx",i] | ["slice",a|None,b|None,step|None]
   Ref    : ["ph",i] | ["var",x]
   STerm  : ["lit",[cps]] | ["str",Ref]           ITerm : ["lit",n] | ["int",Ref] | ["len",Ref]
@@ -100,16 +101,16 @@ def tree_size(t: list) -> int:
 # ------------------------------------------------------------------------------------------------
 
 def gen_slices(rng, text_ok: bool) -> list:
-    """`text_ok`: only what `.fan` text can say *and* the front end reads as written: non-negative
-    numbers, both bounds present.  Otherwise also negative indices and open bounds (only reachable by
-    constructing `ItemSearch` directly)."""
+    """`text_ok`: only what `.fan` text can say: non-negative numbers (bounds may be omitted).  Otherwise
+    also negative indices / bounds (only reachable by constructing `ItemSearch` directly: in text a
+    negative subscript is a Python subscript of the symbol, not a selector)."""
     r = rng.random()
     if text_ok:
-        if r < 0.6:
+        if r < 0.55:
             return [["idx", rng.choice([0, 0, 0, 0, 1, 1, 1, 2])]]
         if r < 0.93:
-            a = rng.choice([0, 0, 1, 2])
-            return [["slice", a, rng.choice([0, 1, 2, 3, 5]), None if rng.random() < 0.8 else rng.choice([1, 2])]]
+            a = rng.choice([None, 0, 0, 1, 2])
+            return [["slice", a, rng.choice([None, 0, 1, 2, 3, 5]), None if rng.random() < 0.75 else rng.choice([1, 2])]]
         return [["idx", 0], ["idx", 1]] if r > 0.97 else [["idx", 0]]      # `<a>[0, 1]`: TypeError
     if r < 0.5:
         return [["idx", rng.choice([0, 0, 1, -1, -1, -1, -2, 2, -3, 4])]]
@@ -140,6 +141,8 @@ def final_nt(s: list) -> Optional[str]:
         return s[1]
     if s[0] in ("attr", "desc"):
         return final_nt(s[2])
+    if s[0] == "sel" and len(s[2]) == 1:
+        return s[2][0][0]
     return None
 
 
@@ -159,14 +162,36 @@ def gen_tree_search(rng, g, depth: int, text_ok: bool) -> list:
         if isinstance(g, dict) and fin is not None and rng.random() < 0.88:
             cands = (descendants_of(g, fin) if desc else children_of(g, fin)) or nts
         return ["desc" if desc else "attr", base, gen_selection(rng, cands, text_ok)]
-    return ["item", gen_tree_search(rng, g, depth - 1, text_ok), gen_slices(rng, text_ok)]
+    if r < 0.86:
+        return ["item", gen_tree_search(rng, g, depth - 1, text_ok), gen_slices(rng, text_ok)]
+    base = gen_tree_search(rng, g, depth - 1, text_ok)
+    fin = final_nt(base)
+    cands = nts
+    if isinstance(g, dict) and fin is not None and rng.random() < 0.88:
+        cands = descendants_of(g, fin) or nts
+    return ["sel", base, gen_pairs(rng, cands, text_ok)]
+
+
+def gen_pairs(rng, nts: list[str], text_ok: bool) -> list:
+    """the entries of a `{…}` selector"""
+    out = []
+    for _ in range(rng.choice([1, 1, 1, 2])):
+        it = None
+        if rng.random() < 0.45:
+            it = gen_slices(rng, text_ok)
+            it = it[0] if it else None
+        out.append([rng.choice(nts), (not text_ok) and rng.random() < 0.4, it])
+    return out
 
 
 def gen_selection(rng, nts: list[str], text_ok: bool) -> list:
     """right-hand side of `.` / `..`: `<x>` or `<x>[…]`"""
-    if rng.random() < 0.75:
+    r = rng.random()
+    if r < 0.72:
         return ["rule", rng.choice(nts)]
-    return ["item", ["rule", rng.choice(nts)], gen_slices(rng, text_ok)]
+    if r < 0.92:
+        return ["item", ["rule", rng.choice(nts)], gen_slices(rng, text_ok)]
+    return ["sel", ["rule", rng.choice(nts)], gen_pairs(rng, nts, text_ok)]
 
 
 def search_text(s: list) -> str:
@@ -177,7 +202,7 @@ def search_text(s: list) -> str:
         return f"{search_text(s[1])}.{selection_text(s[2])}"
     if tag == "desc":
         return f"{search_text(s[1])}..{selection_text(s[2])}"
-    if tag == "item":
+    if tag in ("item", "sel"):
         return selection_text(s)
     if tag == "star":
         return "*" + search_text(s[1])
@@ -197,6 +222,11 @@ def selection_text(s: list) -> str:
         base = s[1]
         b = base[1] if base[0] == "rule" else "(" + search_text(base) + ")"
         return b + "[" + ", ".join(slice_text(x) for x in s[2]) + "]"
+    if s[0] == "sel":
+        base = s[1]
+        b = base[1] if base[0] == "rule" else "(" + search_text(base) + ")"
+        return b + "{" + ", ".join(("" if d else "*") + sym + ("" if it is None else ": " + slice_text(it))
+                                   for sym, d, it in s[2]) + "}"
     return "(" + search_text(s) + ")"
 
 
@@ -219,8 +249,8 @@ def search_text_ok(s: list) -> bool:
         sel = s[2]
         if sel[0] == "rule":
             return search_text_ok(s[1])
-        if sel[0] == "item":
-            return search_text_ok(s[1]) and search_text_ok(sel)
+        if sel[0] in ("item", "sel"):
+            return search_text_ok(s[1]) and search_text_ok(sel) and sel[1][0] == "rule"
         return False
     if tag == "item":
         if not s[2]:
@@ -228,9 +258,22 @@ def search_text_ok(s: list) -> bool:
         for x in s[2]:
             if x[0] == "idx" and x[1] < 0:
                 return False
-            if x[0] == "slice" and (x[1] is None or x[2] is None or x[1] < 0 or x[2] < 0 or
+            if x[0] == "slice" and ((x[1] is not None and x[1] < 0) or (x[2] is not None and x[2] < 0) or
                                     (x[3] is not None and x[3] < 1)):
                 return False
+        return search_text_ok(s[1])
+    if tag == "sel":
+        if not s[2]:
+            return False
+        for sym, direct, it in s[2]:
+            if direct:
+                return False                      # the grammar always writes `*<x>`
+            if it is not None:
+                if it[0] == "idx" and it[1] < 0:
+                    return False
+                if it[0] == "slice" and ((it[1] is not None and it[1] < 0) or (it[2] is not None and it[2] < 0) or
+                                         (it[3] is not None and it[3] < 1)):
+                    return False
         return search_text_ok(s[1])
     if tag in ("star", "len"):
         return search_text_ok(s[1])
